@@ -12,6 +12,7 @@ import (
 	"path/filepath"
 	"runtime"
 	"runtime/debug"
+	"runtime/pprof"
 	"sort"
 	"strconv"
 	"strings"
@@ -596,7 +597,14 @@ func Main(checks map[string]Check) {
 	}
 	if *shard != "" {
 		fmt.Sscanf(*shard, "%d/%d", &r.shardIdx, &r.shardN)
+		if pf := os.Getenv("VERIF_CPUPROFILE"); pf != "" && r.shardIdx == 0 {
+			if f, err := os.Create(pf); err == nil {
+				pprof.StartCPUProfile(f)
+				defer pprof.StopCPUProfile()
+			}
+		}
 		r.guard(func() { c.Run(r) })
+		pprof.StopCPUProfile()
 		r.writePartial(*outFile)
 		os.Exit(0)
 	}
